@@ -36,7 +36,7 @@ SPEC = {
     "trusted": ["h2 4.4.1 / hpack / hyperframe / priority 2.0.0 / h11 0.16 / wsproto as libraries (LibWf sampled by taps)",
                 "hyperframe + hpack as the harness's own frame writer and tolerant output parser; h11 in server role as the oracle for 'malformed HTTP/1 with hint h'"],
     "partial": ["F44 (RecursionError from next(priority) on a ~1000 deep PRIORITY dependency chain): total_h2 holds only as total_h2_partial, negation witness total_h2_fails_as_is; listed in known_findings.json",
-                "the h2c upgrade path is monitored here, not modelled: F43 (an HTTP2-Settings value h2 refuses raised out of the handler after the 101) is repaired (2e1c011: GOAWAY + Closed); its corpus entries stay as ordinary cases, the refusal itself is C13's theorem h2c_served_iff_settings_accepted / h2c_refused_source",
+                "the h2c upgrade path is monitored here, not modelled: F43 (an HTTP2-Settings value h2 refuses raised out of the handler after the 101) is repaired (38e2214: GOAWAY + Closed); its corpus entries stay as ordinary cases, the refusal itself is C13's theorem h2c_served_iff_settings_accepted / h2c_refused_source",
                 "total_h1 / total_ws are theorems about one-op-at-a-time models: the awaits INSIDE one op (e.g. the reader handling WebSocket bytes while the application's own 500 / accept is suspended in a write) are not interleavings of the model; they are covered by the end-to-end monitors on both workers only (F40 and F45 were such windows)",
                 "h11's body-framing checks (too much / too little data for a declared Content-Length) are outside the state machine H11M: they raise LocalProtocolError into the application's send only (no reader-side send declares a length it does not keep)"],
     "assumptions": ["h11 hands over request-line fields (method, target, version) and header names in ASCII only (its grammar: token, vchar+, HTTP/d.d); checked on every tapped Request event", "HTTP/1: one op of HC.Proto.H11 (the handling of one next_event() result, one app_send, handle(Closed)) is atomic; no application step between a Request carrying Expect: 100-continue and the 100 Continue sent at the top of the reader's next iteration (there is no suspension point in between; `sched`)",
